@@ -229,6 +229,15 @@ func (c *Ctx) specCall(name string, e *ast.CallExpr) (Value, bool) {
 			}
 		}
 		return Scalar(r, types.Typ[types.Int]), true
+	case "visited", "rangehas":
+		// inside a range-over-map loop: visited(k) / rangehas(k) (key set at loop start)
+		key, ok := c.fr.scope["$"+name]
+		if !ok {
+			panic(engineErr("%s(...) outside a range-over-map loop", name))
+		}
+		arr := c.st.store[key].S
+		k := c.eval(e.Args[0])
+		return Scalar(Select(arr, k.S), boolT), true
 	case "first":
 		v := c.eval(e.Args[0])
 		if v.Kind != KTuple {
